@@ -16,6 +16,7 @@ pub mod c09;
 pub mod c10;
 pub mod c11;
 pub mod c12;
+pub mod c13;
 pub mod c14;
 pub mod c15;
 pub mod c16;
@@ -24,7 +25,7 @@ pub mod c18;
 pub mod c20;
 
 pub fn all() -> Vec<Box<dyn Scenario>> {
-    vec![Box::new(c01::C01), Box::new(c02::C02), Box::new(c03::C03), Box::new(c04::C04), Box::new(c05::C05), Box::new(c08::C08), Box::new(c09::C09), Box::new(c10::C10), Box::new(c11::C11), Box::new(c12::C12), Box::new(c14::C14), Box::new(c15::C15), Box::new(c16::C16), Box::new(c17::C17), Box::new(c18::C18), Box::new(c20::C20)]
+    vec![Box::new(c01::C01), Box::new(c02::C02), Box::new(c03::C03), Box::new(c04::C04), Box::new(c05::C05), Box::new(c08::C08), Box::new(c09::C09), Box::new(c10::C10), Box::new(c11::C11), Box::new(c12::C12), Box::new(c13::C13), Box::new(c14::C14), Box::new(c15::C15), Box::new(c16::C16), Box::new(c17::C17), Box::new(c18::C18), Box::new(c20::C20)]
 }
 
 pub fn by_id(id: &str) -> Option<Box<dyn Scenario>> {
@@ -146,7 +147,7 @@ pub fn plan_summary(g: &Generated) -> serde_json::Value {
 use crate::client::{History, Op, OpRec, OpResult};
 
 pub fn touches_channel(op: &Op) -> bool {
-    !matches!(op, Op::Yield | Op::Gate(_) | Op::ReadReturns | Op::ReadConfirms | Op::DropReturns | Op::DropConfirms | Op::ForgetConsumer { .. } | Op::Drain { .. } | Op::DropConsumer { .. } | Op::ForeignAck { .. })
+    !matches!(op, Op::Yield | Op::Gate(_) | Op::ReadOld | Op::ReadReturns | Op::ReadConfirms | Op::DropReturns | Op::DropConfirms | Op::ForgetConsumer { .. } | Op::Drain { .. } | Op::DropConsumer { .. } | Op::ForeignAck { .. })
 }
 
 /// "The next call on the channel fails with `want`": the first failing call of every channel
